@@ -796,6 +796,19 @@ def inline_helpers(tree: ast.Module, known_funcs: Set[str], stats: dict) -> None
                         out.extend(_forward_substitute(pre + [st], "__"))
                         stats.setdefault("inlined", []).append(f"{h.qual} (value)")
                         changed = done = True
+                elif not done and isinstance(st, ast.For):
+                    # 7. a call to a statement-bodied (non-generator) helper in the iterable of a `for`: the iterable is
+                    # evaluated exactly once, before the first iteration - hoist the helper's body in front of the loop
+                    call = first_helper_call(st.iter, encl_cls)
+                    if call is not None:
+                        h, recv = resolve(call, encl_cls)
+                        counter[0] += 1
+                        tmp = f"{h.node.name.strip('_')}_result__{counter[0]}"
+                        pre = splice(h, call, recv, host, "value", tmp)
+                        st.iter = _ReplaceNode(call, ast.copy_location(ast.Name(id=tmp, ctx=ast.Load()), call)).visit(st.iter)
+                        out.extend(_forward_substitute(pre + [st], "__"))
+                        stats.setdefault("inlined", []).append(f"{h.qual} (for iterable)")
+                        changed = done = True
                 elif not done and isinstance(st, (ast.If, ast.While)) and not isinstance(st, ast.While):
                     # 5. a call in an `if` test: hoist before the if
                     call = first_helper_call(st.test, encl_cls)
@@ -1232,6 +1245,350 @@ def fold_slice_objects(tree: ast.Module, stats: dict) -> None:
     ast.fix_missing_locations(tree)
 
 
+# --------------------------------------------------------------------------------------------- loops over new constant tables
+def unroll_const_loops(tree: ast.Module, known: Set[str], stats: dict) -> None:
+    """`for T in TABLE: BODY` where TABLE is a NEW module-level name (not in the pinned vocabulary) bound once to a literal
+    tuple/list of at most 8 entries, the loop has no `else`, `break` or `continue` of its own, and its targets are neither
+    assigned in the body nor used after the loop: replaced by BODY once per entry with the targets substituted by the
+    entry's expressions (a table-driven rewrite of what the pinned tree spells out statement by statement).  Entries are
+    substituted as written; `None is None` / `<other constant> is None` tests that appear by substitution are folded."""
+    tables: Dict[str, ast.AST] = {}
+    counts: Dict[str, int] = {}
+    for st in tree.body:
+        tgts = st.targets if isinstance(st, ast.Assign) else [st.target] if isinstance(st, (ast.AnnAssign, ast.AugAssign)) else []
+        for t in tgts:
+            for n in ast.walk(t):
+                if isinstance(n, ast.Name):
+                    counts[n.id] = counts.get(n.id, 0) + 1
+        if isinstance(st, ast.Assign) and len(st.targets) == 1 and isinstance(st.targets[0], ast.Name) and isinstance(st.value, (ast.Tuple, ast.List)):
+            tables[st.targets[0].id] = st.value
+    tables = {k: v for k, v in tables.items() if k not in known and counts.get(k) == 1 and 1 <= len(v.elts) <= 8
+              and not any(isinstance(n, (ast.Call, ast.Starred, ast.Lambda, ast.ListComp, ast.GeneratorExp, ast.DictComp, ast.SetComp, ast.Await, ast.Yield, ast.NamedExpr))
+                          for n in ast.walk(v))}
+    if not tables:
+        return
+    # a table that is mutated or rebound anywhere in the module is left alone
+    for n in ast.walk(tree):
+        if isinstance(n, ast.Call) and isinstance(n.func, ast.Attribute) and isinstance(n.func.value, ast.Name) and n.func.value.id in tables:
+            tables.pop(n.func.value.id, None)
+        if isinstance(n, (ast.Global, ast.Nonlocal)):
+            for x in n.names:
+                tables.pop(x, None)
+    if not tables:
+        return
+
+    def fold_none(e: ast.AST) -> ast.AST:
+        class F(ast.NodeTransformer):
+            def visit_IfExp(self, n):
+                self.generic_visit(n)
+                t = n.test
+                if isinstance(t, ast.Compare) and len(t.ops) == 1 and isinstance(t.ops[0], (ast.Is, ast.IsNot)) \
+                        and isinstance(t.left, ast.Constant) and isinstance(t.comparators[0], ast.Constant) and t.comparators[0].value is None:
+                    val = (t.left.value is None) == isinstance(t.ops[0], ast.Is)
+                    return n.body if val else n.orelse
+                return n
+        return F().visit(e)
+
+    for fn in [n for n in ast.walk(tree) if isinstance(n, (ast.FunctionDef, ast.AsyncFunctionDef))]:
+        changed = True
+        while changed:
+            changed = False
+            for parent in ast.walk(fn):
+                for field in ("body", "orelse", "finalbody"):
+                    lst = getattr(parent, field, None)
+                    if not isinstance(lst, list):
+                        continue
+                    for i, st in enumerate(lst):
+                        if not (isinstance(st, ast.For) and not st.orelse and isinstance(st.iter, ast.Name) and st.iter.id in tables):
+                            continue
+                        if _own_breaks(st) or _own_continues(st) or len(st.body) > 12:
+                            continue
+                        tnames = [n.id for n in ast.walk(st.target) if isinstance(n, ast.Name)]
+                        if not (isinstance(st.target, ast.Name) or (isinstance(st.target, (ast.Tuple, ast.List)) and all(isinstance(x, ast.Name) for x in st.target.elts))):
+                            continue
+                        inside = {id(n) for n in ast.walk(st)}
+                        if any(isinstance(n, ast.Name) and n.id in tnames and id(n) not in inside for n in ast.walk(fn)):
+                            continue  # a target is used outside the loop
+                        if any(isinstance(n, ast.Name) and n.id in tnames and isinstance(n.ctx, (ast.Store, ast.Del)) for b in st.body for n in ast.walk(b)):
+                            continue
+                        elts = tables[st.iter.id].elts
+                        arity = len(st.target.elts) if isinstance(st.target, (ast.Tuple, ast.List)) else None
+                        if arity is not None and not all(isinstance(e, (ast.Tuple, ast.List)) and len(e.elts) == arity for e in elts):
+                            continue
+                        out: List[ast.stmt] = []
+                        for e in elts:
+                            env = {st.target.id: e} if arity is None else {t.id: v for t, v in zip(st.target.elts, e.elts)}
+
+                            class R(ast.NodeTransformer):
+                                def visit_Name(self, n):
+                                    if isinstance(n.ctx, ast.Load) and n.id in env:
+                                        return ast.copy_location(copy.deepcopy(env[n.id]), n)
+                                    return n
+
+                            for b in st.body:
+                                nb = fold_none(R().visit(copy.deepcopy(b)))
+                                out.append(nb)
+                        lst[i:i + 1] = out
+                        stats["const_loops_unrolled"] = stats.get("const_loops_unrolled", 0) + 1
+                        changed = True
+                        break
+                    if changed:
+                        break
+                if changed:
+                    break
+    ast.fix_missing_locations(tree)
+
+
+# --------------------------------------------------------------------------------------------- local records kept in a dict
+def scalarise_local_dicts(tree: ast.Module, stats: dict) -> None:
+    """A local bound once to `{}` / `dict()` / a dict display with constant string keys that is otherwise only used as
+    `d["k"]` (load or store, constant key) and as `**d` in a call is a record: every entry becomes a local `d__k`, and
+    `**d` is expanded into keywords in insertion order.  Done only when every `**d` is reached after all the stores (they
+    all precede it in one straight-line block), so the set of keys at the call is the set of stores."""
+    for fn in [n for n in ast.walk(tree) if isinstance(n, (ast.FunctionDef, ast.AsyncFunctionDef))]:
+        params = {a.arg for a in fn.args.posonlyargs + fn.args.args + fn.args.kwonlyargs} | {a.arg for a in (fn.args.vararg, fn.args.kwarg) if a}
+        nested = {n.id for c in ast.walk(fn) if c is not fn and isinstance(c, (ast.FunctionDef, ast.AsyncFunctionDef, ast.Lambda, ast.ClassDef)) for n in ast.walk(c) if isinstance(n, ast.Name)}
+        defs: Dict[str, List[ast.Assign]] = {}
+        for st in ast.walk(fn):
+            if isinstance(st, ast.Assign) and len(st.targets) == 1 and isinstance(st.targets[0], ast.Name):
+                defs.setdefault(st.targets[0].id, []).append(st)
+        for name, ds in defs.items():
+            if len(ds) != 1 or name in params or name in nested:
+                continue
+            v = ds[0].value
+            if isinstance(v, ast.Dict):
+                if not all(isinstance(k, ast.Constant) and isinstance(k.value, str) and k.value.isidentifier() for k in v.keys):
+                    continue
+                init = [(k.value, val) for k, val in zip(v.keys, v.values)]
+            elif isinstance(v, ast.Call) and isinstance(v.func, ast.Name) and v.func.id == "dict" and not v.args and all(k.arg for k in v.keywords):
+                init = [(k.arg, k.value) for k in v.keywords]
+            else:
+                continue
+            # every other occurrence of the name
+            parent: Dict[int, ast.AST] = {}
+            for n in ast.walk(fn):
+                for c in ast.iter_child_nodes(n):
+                    parent[id(c)] = n
+            ok, keys, stars = True, [k for k, _ in init], []
+            for n in ast.walk(fn):
+                if not (isinstance(n, ast.Name) and n.id == name) or n is ds[0].targets[0]:
+                    continue
+                p = parent.get(id(n))
+                if isinstance(p, ast.Subscript) and p.value is n and isinstance(p.slice, ast.Constant) and isinstance(p.slice.value, str) and p.slice.value.isidentifier() \
+                        and isinstance(p.ctx, (ast.Load, ast.Store)):
+                    if isinstance(p.ctx, ast.Store) and p.slice.value not in keys:
+                        keys.append(p.slice.value)
+                    continue
+                if isinstance(p, ast.keyword) and p.arg is None and p.value is n:
+                    stars.append(p)
+                    continue
+                ok = False
+                break
+            if not ok or not keys:
+                continue
+            # `**d`: all stores must come before it in the same statement list (straight line)
+            if stars:
+                blocks = [lst for b in ast.walk(fn) for f2 in ("body", "orelse", "finalbody") for lst in [getattr(b, f2, None)] if isinstance(lst, list)]
+                good = True
+                for kw in stars:
+                    host = None
+                    for lst in blocks:
+                        for i, st in enumerate(lst):
+                            if any(x is kw for x in ast.walk(st)):
+                                if host is None or len(lst) >= 0:
+                                    host = (lst, i)
+                    if host is None:
+                        good = False
+                        break
+                    lst, i = host
+                    before = {id(x) for st in lst[:i] for x in ast.walk(st)}
+                    for n in ast.walk(fn):
+                        if isinstance(n, ast.Subscript) and isinstance(n.value, ast.Name) and n.value.id == name and isinstance(n.ctx, ast.Store) and id(n) not in before:
+                            good = False
+                    if id(ds[0]) not in before and not any(ds[0] is st for st in lst[:i]):
+                        good = False
+                    # stores must be top-level statements of that block (unconditional)
+                    tops = {id(st.targets[0]) for st in lst[:i] if isinstance(st, ast.Assign) and len(st.targets) == 1}
+                    for n in ast.walk(fn):
+                        if isinstance(n, ast.Subscript) and isinstance(n.value, ast.Name) and n.value.id == name and isinstance(n.ctx, ast.Store) and id(n) not in tops:
+                            good = False
+                if not good:
+                    continue
+            loc = {k: f"{name}__{k}" for k in keys}
+            if any(isinstance(n, ast.Name) and n.id in loc.values() for n in ast.walk(fn)):
+                continue
+
+            class S(ast.NodeTransformer):
+                def visit_Subscript(self, n):
+                    self.generic_visit(n)
+                    if isinstance(n.value, ast.Name) and n.value.id == name and isinstance(n.slice, ast.Constant) and n.slice.value in loc:
+                        return ast.copy_location(ast.Name(id=loc[n.slice.value], ctx=n.ctx), n)
+                    return n
+
+                def visit_Call(self, n):
+                    self.generic_visit(n)
+                    if any(k.arg is None and isinstance(k.value, ast.Name) and k.value.id == name for k in n.keywords):
+                        kws = []
+                        for k in n.keywords:
+                            if k.arg is None and isinstance(k.value, ast.Name) and k.value.id == name:
+                                kws.extend(ast.keyword(arg=kk, value=ast.Name(id=loc[kk], ctx=ast.Load())) for kk in keys)
+                            else:
+                                kws.append(k)
+                        n.keywords = kws
+                    return n
+
+            S().visit(fn)
+            # the initial binding: one assignment per initial entry (or nothing for an empty dict)
+            newinit = [ast.copy_location(ast.Assign(targets=[ast.Name(id=loc[k], ctx=ast.Store())], value=val), ds[0]) for k, val in init]
+            for b in ast.walk(fn):
+                for f2 in ("body", "orelse", "finalbody"):
+                    lst = getattr(b, f2, None)
+                    if isinstance(lst, list):
+                        for i, st in enumerate(lst):
+                            if st is ds[0]:
+                                lst[i:i + 1] = newinit or ([ast.copy_location(ast.Pass(), st)] if len(lst) == 1 else [])
+            stats["local_dicts_scalarised"] = stats.get("local_dicts_scalarised", 0) + 1
+    ast.fix_missing_locations(tree)
+
+
+# --------------------------------------------------------------------------------------------- yield from (generator expression)
+def desugar_yield_from_genexp(tree: ast.Module, stats: dict) -> None:
+    """`yield from (E for T in IT if C)` as a statement  ->  `for T in IT: if C: yield E` (one `for` clause; the clause
+    variables must not be names of the host function)."""
+    for fn in [n for n in ast.walk(tree) if isinstance(n, (ast.FunctionDef, ast.AsyncFunctionDef))]:
+        names = {n.id for n in ast.walk(fn) if isinstance(n, ast.Name)} | {a.arg for a in fn.args.posonlyargs + fn.args.args + fn.args.kwonlyargs}
+        for parent in ast.walk(fn):
+            for field in ("body", "orelse", "finalbody"):
+                lst = getattr(parent, field, None)
+                if not isinstance(lst, list):
+                    continue
+                for i, st in enumerate(lst):
+                    if not (isinstance(st, ast.Expr) and isinstance(st.value, ast.YieldFrom) and isinstance(st.value.value, ast.GeneratorExp)):
+                        continue
+                    g = st.value.value
+                    if len(g.generators) != 1 or g.generators[0].is_async:
+                        continue
+                    comp = g.generators[0]
+                    tn = [n.id for n in ast.walk(comp.target) if isinstance(n, ast.Name)]
+                    inside = [n.id for n in ast.walk(g) if isinstance(n, ast.Name)]
+                    outside_uses = [x for x in tn if (sum(1 for n in ast.walk(fn) if isinstance(n, ast.Name) and n.id == x) > inside.count(x))]
+                    if outside_uses:
+                        continue
+                    body: List[ast.stmt] = [ast.Expr(value=ast.Yield(value=g.elt))]
+                    for c in reversed(comp.ifs):
+                        body = [ast.If(test=c, body=body, orelse=[])]
+                    loop = ast.For(target=comp.target, iter=comp.iter, body=body, orelse=[])
+                    for n in ast.walk(loop):
+                        if isinstance(n, ast.Name) and n.id in tn and isinstance(n.ctx, ast.Store):
+                            pass
+                    ast.copy_location(loop, st)
+                    for n in ast.walk(loop):
+                        if not hasattr(n, "lineno"):
+                            ast.copy_location(n, st)
+                    lst[i] = loop
+                    stats["yield_from_genexp"] = stats.get("yield_from_genexp", 0) + 1
+    ast.fix_missing_locations(tree)
+
+
+# --------------------------------------------------------------------------------------------- lambda lifting of simple closures
+def lift_simple_closures(tree: ast.Module, stats: dict) -> None:
+    """A nested function `g` of a host function that is only ever *called* in the host (never stored or passed on), is not
+    a generator, has a plain signature, no nested scopes of its own, and whose free variables are host names bound exactly
+    once (parameters included) becomes a module-level function with those free variables as extra keyword parameters
+    (classical lambda lifting); the calls pass them along.  The lifted function is a NEW name, so the helper inlining that
+    follows substitutes it into its call sites."""
+    module_names = {n.id for st in tree.body for n in ast.walk(st) if isinstance(n, ast.Name) and isinstance(n.ctx, ast.Store)} \
+        | {st.name for st in tree.body if isinstance(st, (ast.FunctionDef, ast.AsyncFunctionDef, ast.ClassDef))}
+
+    def hosts():
+        for i, st in enumerate(tree.body):
+            if isinstance(st, (ast.FunctionDef, ast.AsyncFunctionDef)):
+                yield st, i
+            elif isinstance(st, ast.ClassDef):
+                for s2 in st.body:
+                    if isinstance(s2, (ast.FunctionDef, ast.AsyncFunctionDef)):
+                        yield s2, i
+
+    inserts: List[Tuple[int, ast.FunctionDef]] = []
+    for host, at in list(hosts()):
+        # nested defs that are direct statements of some block of the host (not inside another nested scope)
+        def blocks(n):
+            for field in ("body", "orelse", "finalbody"):
+                lst = getattr(n, field, None)
+                if isinstance(lst, list) and lst and isinstance(lst[0], ast.stmt):
+                    yield lst
+            for h in getattr(n, "handlers", []) or []:
+                yield h.body
+
+        stack, found = [host], []
+        while stack:
+            n = stack.pop()
+            for lst in blocks(n):
+                for st in lst:
+                    if isinstance(st, ast.FunctionDef) and n is not None and st is not host:
+                        found.append((lst, st))
+                    elif not isinstance(st, (ast.AsyncFunctionDef, ast.ClassDef)):
+                        stack.append(st)
+        for lst, g in found:
+            a = g.args
+            if g.decorator_list or a.vararg or a.kwarg or a.posonlyargs or _has(g.body, (ast.Yield, ast.YieldFrom, ast.FunctionDef, ast.AsyncFunctionDef, ast.ClassDef, ast.Lambda, ast.Global, ast.Nonlocal), stop=()):
+                continue
+            gparams = [x.arg for x in a.args + a.kwonlyargs]
+            glocals = {n.id for n in ast.walk(g) if isinstance(n, ast.Name) and isinstance(n.ctx, (ast.Store, ast.Del))} | set(gparams)
+            if any(isinstance(n, ast.Name) and n.id == g.name for n in ast.walk(g)):
+                continue  # recursive
+            # uses of g in the host: call positions only
+            ginside = {id(n) for n in ast.walk(g)}
+            okuse, calls = True, []
+            par: Dict[int, ast.AST] = {}
+            for n in ast.walk(host):
+                for c in ast.iter_child_nodes(n):
+                    par[id(c)] = n
+            for n in ast.walk(host):
+                if isinstance(n, ast.Name) and n.id == g.name and id(n) not in ginside:
+                    p = par.get(id(n))
+                    if isinstance(p, ast.Call) and p.func is n and not any(isinstance(x, ast.Starred) for x in p.args) and all(k.arg for k in p.keywords):
+                        calls.append(p)
+                    else:
+                        okuse = False
+            if not okuse or not calls:
+                continue
+            # free variables bound in the host
+            hparams = {x.arg for x in host.args.posonlyargs + host.args.args + host.args.kwonlyargs} | {x.arg for x in (host.args.vararg, host.args.kwarg) if x}
+            stores: Dict[str, int] = {x: 1 for x in hparams}
+            for n in ast.walk(host):
+                if id(n) in ginside:
+                    continue
+                if isinstance(n, ast.Name) and isinstance(n.ctx, (ast.Store, ast.Del)):
+                    stores[n.id] = stores.get(n.id, 0) + 1
+            free = []
+            for n in ast.walk(g):
+                if isinstance(n, ast.Name) and isinstance(n.ctx, ast.Load) and n.id not in glocals and n.id in stores and n.id not in free:
+                    free.append(n.id)
+            if any(stores[x] != 1 for x in free) or any(x in gparams for x in free):
+                continue
+            fresh = f"{host.name.strip('_')}__{g.name.strip('_')}"
+            if fresh in module_names:
+                continue
+            module_names.add(fresh)
+            lifted = copy.deepcopy(g)
+            lifted.name = fresh
+            for x in free:
+                lifted.args.kwonlyargs.append(ast.arg(arg=x, annotation=None))
+                lifted.args.kw_defaults.append(None)
+            for c in calls:
+                c.func.id = fresh
+                c.keywords.extend(ast.keyword(arg=x, value=ast.Name(id=x, ctx=ast.Load())) for x in free)
+            lst.remove(g)
+            if not lst:
+                lst.append(ast.copy_location(ast.Pass(), g))
+            inserts.append((at, lifted))
+            stats["closures_lifted"] = stats.get("closures_lifted", 0) + 1
+    for at, fnode in sorted(inserts, key=lambda t: -t[0]):
+        tree.body.insert(at, fnode)
+    ast.fix_missing_locations(tree)
+
+
 # --------------------------------------------------------------------------------------------- entry point
 def normalise(tree: ast.Module, modname: str, stats: dict, foreign: Optional[Dict[str, Dict[str, object]]] = None) -> None:
     base = baseline().get(modname)
@@ -1239,7 +1596,11 @@ def normalise(tree: ast.Module, modname: str, stats: dict, foreign: Optional[Dic
         return  # a module the baseline does not know (scripts, new modules): left as it is
     fold_constants(tree, set(base.get("names", [])), stats, foreign)
     merge_new_bases(tree, set(base.get("names", [])), stats)
+    lift_simple_closures(tree, stats)
+    desugar_yield_from_genexp(tree, stats)
     inline_helpers(tree, set(base.get("functions", [])), stats)
+    unroll_const_loops(tree, set(base.get("names", [])), stats)
+    scalarise_local_dicts(tree, stats)
     desugar_walrus_loops(tree, stats)
     desugar_suppress(tree, stats)
     fold_slice_objects(tree, stats)
